@@ -29,15 +29,16 @@ type PropConfig struct {
 }
 
 type InventoryRule struct {
-	Name       string   `json:"name"`
-	Kind       string   `json:"kind"`    // "writers" | "deleters" | "callers"
-	Family     string   `json:"family"`  // key builder function (qualified) or callee
-	Allowed    []string `json:"allowed"` // functions allowed to do it
-	Scope      string   `json:"scope"`   // only sites whose enclosing function name starts with / contains "(" + scope
-	Reason     string   `json:"reason"`
-	ExpectNone bool     `json:"expect_none"`
-	Arg        int      `json:"arg"`      // kind "argtype": index of the argument ...
-	ArgType    string   `json:"arg_type"` // ... whose static type (under a MakeInterface / address-of) must contain this text
+	Name       string         `json:"name"`
+	Kind       string         `json:"kind"`    // "writers" | "deleters" | "callers"
+	Family     string         `json:"family"`  // key builder function (qualified) or callee
+	Allowed    []string       `json:"allowed"` // functions allowed to do it
+	Scope      string         `json:"scope"`   // only sites whose enclosing function name starts with / contains "(" + scope
+	Reason     string         `json:"reason"`
+	ExpectNone bool           `json:"expect_none"`
+	Arg        int            `json:"arg"`       // kind "argtype": index of the argument ...
+	ArgType    string         `json:"arg_type"`  // ... whose static type (under a MakeInterface / address-of) must contain this text
+	MaxSites   map[string]int `json:"max_sites"` // allowed function -> number of sites it has on the pinned tree (more is a failure)
 }
 
 // ImplCheck: the method Impl ("<pkg rel>.(Recv).Name") must satisfy the interface contract Iface ("<pkg rel>.IFACE Iface.Method").
